@@ -159,8 +159,9 @@ def run_rules(prop: str, repo: Repo, tier: str, with_deps: bool = True) -> Ctx:
     mod = importlib.import_module(f"hipposa.rules.{prop.lower()}")
     ctx = Ctx(prop, repo, tier)
     mod.run(ctx)
-    from .rules.purity_scope import run_purity
+    from .rules.purity_scope import run_purity, run_struct
     run_purity(ctx)
+    run_struct(ctx)
     if with_deps:
         from .depends import DEPENDS
         for dep, (rules, why) in DEPENDS.get(prop, {}).items():
